@@ -75,6 +75,27 @@ Definition perr_eqb (a b : perr) : bool :=
   | _, _ => false
   end.
 
+(* inside the modelled domain of FloatVal's text (at most 15 significant digits) the literal printed into the
+   statement parses back to exactly the query's number; beyond it float64 itself rounds *)
+Definition value_lit_ok (v : Traceql.value) : bool :=
+  match fmt_f_dec (v_f v) with Some _ => lit_exact v | None => true end.
+Definition agg_lit_ok (g : aggregator) : bool :=
+  if String.eqb (g_attr g) "duration" then true
+  else match fmt_f_dec (g_num g ++ g_meas g) with Some _ => agg_lit_exact g | None => true end.
+Fixpoint exp_lits_ok (e : attr_exp) : bool :=
+  match e with
+  | AExp h _ tl =>
+      match h with HTerm t => value_lit_ok (a_val t) | HParen e' => exp_lits_ok e' end
+      && match tl with Some t' => exp_lits_ok t' | None => true end
+  end.
+Fixpoint script_lits_ok (s : script) : bool :=
+  match s with
+  | Script h _ tl =>
+      match sel_attr h with Some e => exp_lits_ok e | None => true end
+      && match sel_agg h with Some g => agg_lit_ok g | None => true end
+      && match tl with Some s' => script_lits_ok s' | None => true end
+  end.
+
 (* oracle fields of every value/aggregator of the script agree with the modelled domain *)
 Fixpoint exp_oracles_ok (e : attr_exp) : bool :=
   match e with
@@ -91,7 +112,8 @@ Fixpoint script_oracles_ok (s : script) : bool :=
 
 (* codes: 1 = outcome class differs (statement / error class / panic); 2 = text of the model's
    statement differs from the observed text; 3 = the dumped object tree does not print to the
-   observed text (the dump or its translation is wrong); 4 = library values inconsistent *)
+   observed text (the dump or its translation is wrong); 4 = library values inconsistent;
+   5 = a numeric literal, as printed into the statement, does not parse back to the query's number *)
 Definition text_ok (rendered : string) (fp : int * int * int) (text : option string) : bool :=
   fp_eqb (fingerprint rendered) fp && match text with Some t => String.eqb rendered t | None => true end.
 
@@ -111,7 +133,8 @@ Fixpoint calls_mismatch (cs : case) (n : nat) (l : list (Z * obs)) : list Z :=
   match l with [] => [] | o :: r => (call_mismatch cs n o ++ calls_mismatch cs (S n) r)%list end.
 
 Definition case_mismatch (cs : case) : list Z :=
-  ((if script_oracles_ok (c_q cs) then [] else [4%Z]) ++ calls_mismatch cs 1 (c_obs cs))%list.
+  ((if script_oracles_ok (c_q cs) then [] else [4%Z]) ++ (if script_lits_ok (c_q cs) then [] else [5%Z])
+   ++ calls_mismatch cs 1 (c_obs cs))%list.
 
 Definition mismatches (l : list case) : list (Z * Z) :=
   flat_map (fun cs => map (fun code => (c_id cs, code)) (case_mismatch cs)) l.
@@ -238,26 +261,8 @@ Definition result_ok (c : ctx) (all : list tres) (res : list (string * list stri
   && distinct_strs (map fst res)
   && is_topk (limit c) all keyed.
 
-(* does the script carry a numeric literal with more than six decimals (finding float-literal-6-decimals) *)
-Definition long_dec (s : string) : bool := match parse_dec s with Some d => Nat.ltb 6 (d_flen d) | None => false end.
-Fixpoint exp_long_lit (e : attr_exp) : bool :=
-  match e with
-  | AExp h _ tl =>
-      match h with HTerm t => long_dec (v_f (a_val t)) | HParen e' => exp_long_lit e' end
-      || match tl with Some t' => exp_long_lit t' | None => false end
-  end.
-Fixpoint script_long_lit (s : script) : bool :=
-  match s with
-  | Script h _ tl =>
-      match sel_attr h with Some e => exp_long_lit e | None => false end
-      || match sel_agg h with Some g => long_dec (g_num g) | None => false end
-      || match tl with Some s' => script_long_lit s' | None => false end
-  end.
-
 (* 0 = agrees; 1 = the statement does not evaluate (unknown column, unsupported construct: ClickHouse
-   would answer with an error); 2 = evaluates to a different answer; 3 = differs from the meaning of the
-   script, but agrees with it once every literal with more than six decimals is rounded the way
-   FloatVal prints it (recorded finding) *)
+   would answer with an error); 2 = evaluates to a different answer *)
 Definition sem_code (cs : case) (n : nat) (o : Z * obs) (d : db) : Z :=
   let c := with_rf_i (c_ctx cs) (fst o) in
   match stmt_of cs n o with
@@ -266,9 +271,8 @@ Definition sem_code (cs : case) (n : nat) (o : Z * obs) (d : db) : Z :=
       match index_rows c d s with
       | None => 1%Z
       | Some res =>
-          let all := fun rounded => filter (fun t => in_portion c (t_trace t)) (traceql_sem re_toy float_toy rounded c d (c_q cs)) in
-          if result_ok c (all false) res then 0%Z
-          else if script_long_lit (c_q cs) && result_ok c (all true) res then 3%Z else 2%Z
+          let all := filter (fun t => in_portion c (t_trace t)) (traceql_sem re_toy float_toy false c d (c_q cs)) in
+          if result_ok c all res then 0%Z else 2%Z
       end
   end.
 Fixpoint sem_calls (cs : case) (n : nat) (l : list (Z * obs)) : list Z :=
